@@ -353,6 +353,6 @@ SUBCHECKS = [
         doc="VectorSpline2D with per-component weights vs the independent coupled solution; objective optimality"),
     Sub("weights_metamorphic", check_meta, strategy=meta_cases(), quick=300, thorough=2000, shards_quick=2,
         doc="undamped fit invariant under a common positive weight factor; a datum of vanishing weight stops influencing the fit"),
-    Sub("large", check_large, strategy=large_cases(), quick=10, thorough=50,
+    Sub("large", check_large, strategy=large_cases(), quick=10, thorough=50, heavy=True,
         doc="Spline / VectorSpline2D / Trend on 2 100 - 5 000 data points (8-40 separate forces): same optimum judgement as the small cases"),
 ]
